@@ -162,7 +162,8 @@ theorem registered_forever (C : Crypto) (st : State) (cs : List Call) (hinv : Re
     | ok v =>
       obtain ⟨st', rs, ev⟩ := v
       rcases call_cases C st c.ctx c.func c.args st' rs ev hc with
-        ⟨m, p, _, _, ha⟩ | ⟨s, p, _, _, hr⟩ | ⟨chain, id, src, ph, b, _, _, _, hv, _⟩ | ⟨op, _, _, _, ht⟩ | rfl
+        ⟨m, p, _, _, ha⟩ | ⟨s, p, _, _, hr⟩ | ⟨chain, id, src, ph, b, _, _, _, hv, _⟩ | ⟨op, _, _, _, ht⟩ |
+        ⟨_, _, op, _, ss, _, _, _, _, _, hu⟩ | rfl
       · obtain ⟨proof, msgs, b, _, _, _, _, he⟩ := approveMessages_spec C st st' m p ev ha
         have hf := approveAll_frame C st msgs []
         rw [← he] at hf
@@ -185,6 +186,16 @@ theorem registered_forever (C : Crypto) (st : State) (cs : List Call) (hinv : Re
             · cases ht
             · cases ht; exact ⟨rfl, ⟨hinv.fwd, hinv.bwd⟩⟩
           · cases ht
+      · -- upgrade: every set goes through the raw rotation, which refuses registered hashes
+        exact upgrade_induct C c.ctx.now (fun s => s.epochByHash h = st.epochByHash h ∧ RegInv s)
+          (fun s o hp => ⟨hp.1, ⟨hp.2.fwd, hp.2.bwd⟩⟩)
+          (fun s s' ws e hp hr => by
+            refine ⟨?_, rotateSignersRaw_regInv C s s' _ ws _ e hp.2 hr⟩
+            obtain ⟨_, hnew, _, _, rfl, _⟩ := rotateSignersRaw_spec C s s' _ ws _ e hr
+            have : h ≠ signersHash C ws := by
+              intro hh; rw [hh] at hp hreg; rw [hp.1] at hnew; exact hreg hnew
+            simp only [upd_other _ _ _ _ this]; exact hp.1)
+          st op ss st' ev ⟨rfl, hinv⟩ hu
       · exact ⟨rfl, hinv⟩
   induction cs generalizing st with
   | nil => rfl
@@ -198,7 +209,8 @@ theorem registered_forever (C : Crypto) (st : State) (cs : List Call) (hinv : Re
 /-- **Operatorship changes only at the request of the current operator or the owner.** -/
 theorem operator_changes_only_by_operator_or_owner (C : Crypto) (st : State) (c : Call)
     (h : (stepCall C st c).operator ≠ st.operator) :
-    c.func = "transferOperatorship" ∧ (c.ctx.caller = st.operator ∨ c.ctx.caller = c.ctx.owner) := by
+    (c.func = "transferOperatorship" ∨ c.func = "upgradeContract") ∧
+      (c.ctx.caller = st.operator ∨ c.ctx.caller = c.ctx.owner) := by
   unfold stepCall at h
   cases hc : call C st c.ctx c.func c.args with
   | error e => simp [hc] at h
@@ -206,7 +218,8 @@ theorem operator_changes_only_by_operator_or_owner (C : Crypto) (st : State) (c 
     obtain ⟨st', rs, ev⟩ := v
     simp only [hc] at h
     rcases call_cases C st c.ctx c.func c.args st' rs ev hc with
-      ⟨m, p, _, _, ha⟩ | ⟨s, p, _, _, hr⟩ | ⟨chain, id, src, ph, b, _, _, _, hv, _⟩ | ⟨op, hf, _, _, ht⟩ | rfl
+      ⟨m, p, _, _, ha⟩ | ⟨s, p, _, _, hr⟩ | ⟨chain, id, src, ph, b, _, _, _, hv, _⟩ | ⟨op, hf, _, _, ht⟩ |
+      ⟨_, _, op, _, ss, hfu, _, hown, _, _, hu⟩ | rfl
     · obtain ⟨proof, msgs, b, _, _, _, _, he⟩ := approveMessages_spec C st st' m p ev ha
       have hf := approveAll_frame C st msgs []
       rw [← he] at hf
@@ -216,7 +229,7 @@ theorem operator_changes_only_by_operator_or_owner (C : Crypto) (st : State) (c 
       exact absurd rfl h
     · simp only [validateMessage] at hv
       split at hv <;> (cases hv; exact absurd rfl h)
-    · refine ⟨hf, ?_⟩
+    · refine ⟨Or.inl hf, ?_⟩
       unfold transferOperatorship at ht
       split at ht
       · cases ht
@@ -224,6 +237,7 @@ theorem operator_changes_only_by_operator_or_owner (C : Crypto) (st : State) (c 
         · rename_i hcond
           simpa using hcond
         · cases ht
+    · exact ⟨Or.inr hfu, Or.inr hown⟩
     · exact absurd rfl h
 
 /-- **Monotone block time keeps `lastRotation ≤ now`** (the side condition under which the
@@ -236,7 +250,8 @@ theorem last_rotation_le_now (C : Crypto) (st : State) (c : Call) (h : st.lastRo
   | ok v =>
     obtain ⟨st', rs, ev⟩ := v
     rcases call_cases C st c.ctx c.func c.args st' rs ev hc with
-      ⟨m, p, _, _, ha⟩ | ⟨s, p, _, _, hr⟩ | ⟨chain, id, src, ph, b, _, _, _, hv, _⟩ | ⟨op, hf, _, _, ht⟩ | rfl
+      ⟨m, p, _, _, ha⟩ | ⟨s, p, _, _, hr⟩ | ⟨chain, id, src, ph, b, _, _, _, hv, _⟩ | ⟨op, hf, _, _, ht⟩ |
+      ⟨_, _, op, _, ss, _, _, _, _, _, hu⟩ | rfl
     · obtain ⟨proof, msgs, b, _, _, _, _, he⟩ := approveMessages_spec C st st' m p ev ha
       have hf := approveAll_frame C st msgs []
       rw [← he] at hf
@@ -255,6 +270,10 @@ theorem last_rotation_le_now (C : Crypto) (st : State) (c : Call) (h : st.lastRo
           · cases ht
           · cases ht; exact h
         · cases ht
+    · exact upgrade_induct C c.ctx.now (fun s => s.lastRotation ≤ c.ctx.now) (fun s o hp => hp)
+        (fun s s' ws e hp hr => by
+          obtain ⟨_, _, _, _, rfl, _⟩ := rotateSignersRaw_spec C s s' _ ws _ e hr; exact Nat.le_refl _)
+        st op ss st' ev h hu
     · exact h
 
 /-! ### Non-vacuity (tests) -/
